@@ -8,7 +8,7 @@ def check(run):
     # followed by a run of the extracted auditor on the image)
     n = 24 if run.tier == "quick" else 120
     ops = 300 if run.tier == "quick" else 1500
-    kvcommon.drive(run, "struct", n, ops, reopen=True, audit=True, boundary=(60 if run.tier == "quick" else 500),
+    kvcommon.drive(run, "struct", n, ops, reopen=True, audit=True, boundary=(60 if run.tier == "quick" else 250),
                    destroy=(24 if run.tier == "quick" else 120), thin=(12 if run.tier == "quick" else 100), uplink=(40 if run.tier == "quick" else 400), ringrun=(1 if run.tier == "quick" else 2), stalehead=(4 if run.tier == "quick" else 16))
     return run.finish(level=LEVEL, rule=kvcommon.RULE, assumptions=kvcommon.ASSUME)
 
